@@ -6,6 +6,7 @@ import Amgcl.Proofs.SolverGMRES
 import Amgcl.Proofs.SolverFGMRES
 import Amgcl.Proofs.SolverLGMRES
 import Amgcl.Proofs.SolverIDRsTruth
+import Amgcl.Proofs.SolverBiCGStabLTruth
 import Mathlib.Algebra.Order.Field.Rat
 /-!
 # C01 — a reported convergence is truthful: residual, iteration count, solution  (CG, BiCGStab, Richardson, preonly)
@@ -523,6 +524,38 @@ theorem idrs_iter_le_maxiter (prm : IDRs.Params K) (ip : Vec K → Vec K → K) 
 
 end idrs
 
+/-! ### BiCGStab(L)
+
+BiCGStab(L) iterates on the correction: `B` is the (preconditioned) residual of the caller's `x`, `X` the accumulated
+correction in the preconditioned space, `R[0]` the recursively updated `B − A'X` (`A' = A∘P` right, `P∘A` left);
+`x += X` (left) resp. `x += P X` (right) only at the label `done` and in the accurate-update branch.  The invariant
+`B = Rf(x)`, `R[0] = B − A'X`, `R[i+1] = A'R[i]`, `U[i+1] = A'U[i]` holds for ARBITRARY values of `alpha`, `beta` and of
+the polynomial coefficients (nothing about `QR.solve` is used beyond its frame), through the early exit, the
+`delta`-refresh and the `update_x` re-basing.  Because `P` is applied to the SUM `X` at the end, `P` must be linear
+for BOTH sides (`PLin`; every explicit matrix preconditioner is, `PLin_spmv`), and `A` square. -/
+section bicgstabl
+variable {K : Type} [Field K] [DecidableEq K] [LT K] [DecidableLT K]
+
+/-- **BiCGStab(L) reports the true (preconditioned) residual of the `x` it returns** — every `L`, both sides, every
+`delta`/`convex`, all exits.  (Named `_partial` in the work-package plan; the statement proved is the full one, the
+only restriction being linearity of `P` and a square well-formed `A`.) -/
+theorem bicgstabl_truthful_partial (prm : BiCGStabL.Params K) (ip : Vec K → Vec K → K) (sqrt : K → K) (eps c07 : K)
+    (A : CRS K) (P : Vec K → Vec K) (ok : BiCGStab.SideOK prm.pside A P) (hsq : A.nrows = A.ncols)
+    (hlin : PLin A.nrows P) (ws : BiCGStabL.Work K) (f x0 : Vec K) (it : Nat) (res : K) (x : Vec K)
+    (w : BiCGStabL.Work K) (h : BiCGStabL.solve prm ip sqrt eps c07 A P ws f x0 = .ok (it, res, x, w)) :
+    res = reported (prologue prm.nsSearch ip sqrt eps f) (nrm ip sqrt (BiCGStab.Rf prm.pside P f A x)) :=
+  BiCGStabL.solve_truthful prm ip sqrt eps c07 A P ok hsq hlin ws f x0 it res x w h
+
+/-- **`it ≤ maxiter + L − 1`** for BiCGStab(L) (a pass is entered with `iter < maxiter` and adds `L`, the early exit
+adds `j+1 ≤ L`); no hypothesis on `A`, `P`. -/
+theorem bicgstabl_iter_le (prm : BiCGStabL.Params K) (ip : Vec K → Vec K → K) (sqrt : K → K) (eps c07 : K)
+    (A : CRS K) (P : Vec K → Vec K) (ws : BiCGStabL.Work K) (f x0 : Vec K) (it : Nat) (res : K) (x : Vec K)
+    (w : BiCGStabL.Work K) (h : BiCGStabL.solve prm ip sqrt eps c07 A P ws f x0 = .ok (it, res, x, w))
+    (hL : 1 ≤ prm.L) : it ≤ prm.maxiter + prm.L - 1 :=
+  BiCGStabL.solve_iter_le prm ip sqrt eps c07 A P ws f x0 it res x w h hL
+
+end bicgstabl
+
 section gmresOrdered
 variable {K : Type} [Field K] [LinearOrder K] [IsStrictOrderedRing K]
 
@@ -601,6 +634,37 @@ example : ∃ it res x w, IDRs.solve (idPrm true true) stdIp id 0 A₁ (fun v =>
   have h : (match IDRs.solve (idPrm true true) stdIp id 0 A₁ (fun v => vcopy v) Pv₁ (IDRs.Work.fresh 3)
       #[1, 0, 2] #[0, 0, 0] with
       | .ok (it, _, _, _) => decide (it = 3) | _ => false) = true := by decide +kernel
+  split at h
+  · exact ⟨_, _, _, _, ‹_›, of_decide_eq_true h⟩
+  · cases h
+
+/-- BiCGStab(2) with `delta = 1/2` on a non-symmetric 3×3 system with a matrix preconditioner, both sides: the
+hypotheses of `bicgstabl_truthful_partial` hold and the calls return after a full pass (polynomial step through
+`qr.solve`) -/
+private def A₃ : CRS ℚ := ⟨3, #[[(0, 2), (1, -1)], [(0, -3), (1, 4), (2, 1)], [(1, -1), (2, 3)]]⟩
+private def M₃ : CRS ℚ := ⟨3, #[[(0, 1/2)], [(0, 1/8), (1, 1/4)], [(2, 1/3)]]⟩
+private def P₃ : Vec ℚ → Vec ℚ := fun v => spmv 1 M₃ v 0 #[]
+private def blPrm (side : Side) : BiCGStabL.Params ℚ :=
+  { maxiter := 2, tol := 0, abstol := 0, nsSearch := false, L := 2, delta := 1/2, convex := false, pside := side }
+
+example (side : Side) : BiCGStab.SideOK side A₃ P₃ ∧ A₃.nrows = A₃.ncols ∧ PLin A₃.nrows P₃ :=
+  ⟨⟨by decide, fun v => spmv_size' 1 0 M₃ v #[], fun _ => ⟨rfl, PLin_spmv M₃ (by decide) #[]⟩⟩, rfl,
+    PLin_spmv M₃ (by decide) #[]⟩
+
+example : ∃ it res x w, BiCGStabL.solve (blPrm .right) stdIp id 0 (7/10) A₃ P₃ (BiCGStabL.Work.fresh 3)
+    #[1, 3, 2] #[1, 0, 0] = .ok (it, res, x, w) ∧ it = 2 := by
+  have h : (match BiCGStabL.solve (blPrm .right) stdIp id 0 (7/10) A₃ P₃ (BiCGStabL.Work.fresh 3)
+      #[1, 3, 2] #[1, 0, 0] with
+      | .ok (it, _, _, _) => decide (it = 2) | _ => false) = true := by decide +kernel
+  split at h
+  · exact ⟨_, _, _, _, ‹_›, of_decide_eq_true h⟩
+  · cases h
+
+example : ∃ it res x w, BiCGStabL.solve (blPrm .left) stdIp id 0 (7/10) A₃ P₃ (BiCGStabL.Work.fresh 3)
+    #[1, 3, 2] #[1, 0, 0] = .ok (it, res, x, w) ∧ it = 2 := by
+  have h : (match BiCGStabL.solve (blPrm .left) stdIp id 0 (7/10) A₃ P₃ (BiCGStabL.Work.fresh 3)
+      #[1, 3, 2] #[1, 0, 0] with
+      | .ok (it, _, _, _) => decide (it = 2) | _ => false) = true := by decide +kernel
   split at h
   · exact ⟨_, _, _, _, ‹_›, of_decide_eq_true h⟩
   · cases h
